@@ -123,7 +123,11 @@ impl SignatureContext<'_> {
         }
 
         // header auth
-        if self.hs.get_unique(crate::header::AUTHORIZATION).is_some() {
+        if self.hs.get_all(crate::header::AUTHORIZATION).next().is_some() {
+            // a repeated header is not an anonymous request
+            if self.hs.get_unique(crate::header::AUTHORIZATION).is_none() {
+                return Some(Err(invalid_request!("duplicated header: authorization")));
+            }
             debug!("checking header auth");
             return Some(self.v4_check_header_auth().await);
         }
